@@ -248,6 +248,11 @@ func (lw *loopWorld) chainNext(fields []string) func() {
 	}
 	k := atoi(v)
 	if k <= 0 {
+		// "then=<action, '_' for spaces>": what the innermost callback of the chain does
+		if t, ok := attr(fields, "then"); ok {
+			act := strings.Fields(strings.ReplaceAll(t, "_", " "))
+			return func() { lw.exec(act) }
+		}
 		return nil
 	}
 	next := withAttr(withAttr(fields, "chain", strconv.Itoa(k-1)), "op", "+")
@@ -1305,6 +1310,16 @@ func loopEnum(args []string, w *bufio.Writer) {
 			"read 1 4 op=11", "setdisp 0", "poll", "pending")
 	}
 	emit("obj 1 listener", "peer 1 connect\npeer 1 connect\npeer 1 connect", "accept 1 op=11 chain=40", "poll", "pending")
+	// more queued connections than the limit: the chain nests 32 callbacks, the 33rd accept is deferred
+	emit("obj 1 listener", strings.Repeat("peer 1 connect\n", 40), "accept 1 op=11 chain=45", "pending", "poll", "poll", "pending")
+	emit("obj 1 packet", strings.Repeat("peer 1 send 4\n", 40), "recvfrom 1 8 op=11 chain=45", "pending", "poll", "poll", "pending")
+	// a chain of one kind that reaches the limit exactly, then an operation of another kind from the innermost callback
+	for _, then := range []string{"accept_2_op=77", "recvfrom_3_8_op=77", "sendto_3_4_op=77", "write_4_3_op=77", "read_4_3_op=77"} {
+		for _, n := range []int{30, 31, 32} {
+			emit("obj 1 tcp", "obj 2 listener", "obj 3 packet", "obj 4 tcp", "peer 2 connect", "peer 3 send 4", "peer 4 write 8", "peer 1 write 200",
+				fmt.Sprintf("read 1 1 op=+ chain=%d then=%s", n, then), "pending", "poll", "peer 4 drain", "pending")
+		}
+	}
 	// a read chain of exactly the limit, then an accept issued from the innermost callback
 	emit("obj 1 tcp", "obj 2 listener", "peer 2 connect", "peer 1 write 200", "prog 11 accept 2 op=12", "read 1 1 op=+ chain=31", "pending")
 	// 2. ReadAll / WriteAll: partial transfer, then more data or the end of the stream
